@@ -117,6 +117,19 @@ Qed.
 Lemma map_slot_of ps : NoDup ps -> map (slot_of ps) ps = slots (List.length ps).
 Proof. intros H. apply (map_slot_of_from ps []). exact H. Qed.
 
+Lemma NoDup_app_disj (a b : list string) : NoDup a -> NoDup b -> (forall x, In x a -> ~ In x b) -> NoDup (a ++ b).
+Proof.
+  induction 1 as [|x a Hx Ha IH]; cbn; intros Hb Hd; [exact Hb|].
+  constructor; [|apply IH; [exact Hb|intros y Hy; apply Hd; now right]].
+  intros Hin. apply in_app_or in Hin as [Hin|Hin]; [contradiction|]. apply (Hd x); [now left|exact Hin].
+Qed.
+Lemma map_slot_of_prefix ps xs : NoDup (ps ++ xs) -> map (slot_of (ps ++ xs)) ps = slots (List.length ps).
+Proof.
+  intros H. pose proof (map_slot_of _ H) as E. apply (f_equal (firstn (List.length ps))) in E.
+  rewrite map_app, firstn_app, map_length, Nat.sub_diag in E. cbn [firstn] in E. rewrite app_nil_r in E.
+  rewrite firstn_all2 in E by (rewrite map_length; lia). rewrite E, app_length. apply slots_prefix. lia.
+Qed.
+
 (* ------------------------------------------------------------------------------------------------ the pipeline *)
 Section Pipeline.
   Variable vars : list string.
@@ -127,10 +140,16 @@ Section Pipeline.
   Let ps := spec_params vars args ret.
   Let decl := register (register [] (m_events m)) args.
 
+  Lemma wf_bvp : forall p, In p (m_bvp m) -> In p vars.
+  Proof.
+    unfold wf in WF. apply andb_true_iff in WF as [_ H]. rewrite forallb_forall in H.
+    intros p Hp. now apply mem_In, H.
+  Qed.
   Lemma wf_parts : NoDup vars /\ (exists more, m_events m = (vars ++ more)%list) /\ In ret args /\ ~ In ret vars /\
                    (forall a, In a args -> a = ret \/ In a vars).
   Proof.
-    unfold wf in WF. repeat (apply andb_true_iff in WF as [WF ?]).
+    pose proof WF as WF0. unfold wf in WF0. apply andb_true_iff in WF0 as [WF0 _]. rename WF0 into WF1.
+    repeat (apply andb_true_iff in WF1 as [WF1 ?]).
     repeat split.
     - now apply nodupb_NoDup.
     - now apply prefixb_app.
@@ -223,16 +242,35 @@ Section Pipeline.
       + intros Hx. destruct (string_dec x ret) as [->|N]; [now left|right]. apply ps_in. tauto.
   Qed.
 
+  Let xs := spec_extras vars ps (m_bvp m).
+  Lemma extras_eq : filter (fun p => mem p decl && negb (mem p ps)) (dedupe (m_bvp m)) = xs.
+  Proof.
+    destruct decl_shape as (ext & Hd & _ & _ & _). destruct (dedupe_spec (m_bvp m)) as (_ & Hin).
+    unfold xs, spec_extras. apply filter_ext_in. intros p Hp. apply Hin, wf_bvp in Hp. f_equal.
+    assert (H1 : mem p vars = true) by now apply mem_In.
+    assert (H2 : mem p decl = true) by (apply mem_In; rewrite Hd; apply in_or_app; now left).
+    now rewrite H1, H2.
+  Qed.
+  Lemma all_NoDup : NoDup (ps ++ xs).
+  Proof.
+    apply NoDup_app_disj; [apply ps_NoDup|apply NoDup_filter, dedupe_spec|].
+    intros x Hx Hin. unfold xs, spec_extras in Hin. apply filter_In in Hin as [_ H]. apply andb_true_iff in H as [_ H].
+    apply negb_true_iff, mem_false in H. contradiction.
+  Qed.
+
   (* Impl = Spec *)
   Theorem emit_refines : emit m = spec_emit vars m.
   Proof.
-    unfold emit, emit_with, spec_emit. fold ret args decl ps. rewrite head_args_eq. cbn [skipn]. rewrite auto_order_eq.
-    rewrite gen_equiv. rewrite <- (map_slot_of ps ps_NoDup).
-    rewrite firstn_all2 by (rewrite map_length; lia).
+    unfold emit, emit_with, spec_emit, spec_all. fold ret args decl ps. rewrite head_args_eq. cbn [skipn]. rewrite auto_order_eq.
+    rewrite extras_eq. fold xs.
+    rewrite gen_equiv. rewrite <- (map_slot_of _ all_NoDup).
+    replace (firstn (List.length ps) (map (slot_of (ps ++ xs)) (ps ++ xs))) with (map (slot_of (ps ++ xs)) ps)
+      by (rewrite map_app, firstn_app, map_length, Nat.sub_diag; cbn [firstn]; rewrite app_nil_r; symmetry; apply firstn_all2; rewrite map_length; lia).
     rewrite combine_map_self. rewrite !map_map. cbn [fst snd].
     f_equal.
-    - apply flat_map_ext. intros [r p]. cbn [fst snd]. rewrite lookup_last_map. destruct (mem p ps); reflexivity.
-    - destruct ps; reflexivity.
+    - apply flat_map_ext. intros [r p]. cbn [fst snd]. rewrite lookup_last_map. destruct (mem p (ps ++ xs)); reflexivity.
+    - apply flat_map_ext. intros p. rewrite lookup_last_map. destruct (mem p (ps ++ xs)); reflexivity.
+    - destruct (ps ++ xs)%list; reflexivity.
   Qed.
 End Pipeline.
 
@@ -242,43 +280,59 @@ End Pipeline.
 Theorem same_slot_everywhere vars m : wf vars m = true ->
   let e := emit m in
   let ps := spec_params vars (m_args m) (m_ret m) in
-  let s := slot_of ps in
+  let all := spec_all vars m in
+  let s := slot_of all in
   e_sig e = "t"%string :: "y"%string :: m_ret m :: ps /\
   e_call e = map s ps /\
-  e_parnames e = map (fun p => (s p, p)) ps /\
-  e_stpnt e = map (fun p => (s p, lookupq (m_val m) p, p)) ps /\
-  (forall r p, In (r, p) (m_dfdp m) -> In p ps -> In (Z.of_nat r + 1, s p) (e_dfdp e)) /\
-  (forall rc, In rc (e_dfdp e) -> exists r p, In (r, p) (m_dfdp m) /\ In p ps /\ rc = (Z.of_nat r + 1, s p)) /\
+  e_parnames e = map (fun p => (s p, p)) all /\
+  e_stpnt e = map (fun p => (s p, lookupq (m_val m) p, p)) all /\
+  (forall r p, In (r, p) (m_dfdp m) -> In p all -> In (Z.of_nat r + 1, s p) (e_dfdp e)) /\
+  (forall rc, In rc (e_dfdp e) -> exists r p, In (r, p) (m_dfdp m) /\ In p all /\ rc = (Z.of_nat r + 1, s p)) /\
+  (forall p, In p (m_bvp m) -> In p all /\ In (s p) (e_bvp e)) /\
+  (forall c, In c (e_bvp e) -> exists p, In p (m_bvp m) /\ c = s p) /\
   map s ps = slots (List.length ps) /\
-  StronglySorted Z.lt (map s ps) /\ NoDup (map s ps) /\
-  Forall (fun x => ~ (10 <= x <= 14)) (map s ps) /\ Forall (fun x => 1 <= x) (map s ps) /\
+  map s all = slots (List.length all) /\
+  StronglySorted Z.lt (map s all) /\ NoDup (map s all) /\
+  Forall (fun x => ~ (10 <= x <= 14)) (map s all) /\ Forall (fun x => 1 <= x) (map s all) /\
   e_ndim e = Z.of_nat (List.length (m_states m)) /\
-  e_npar e = match ps with [] => 1 | _ => slot (Z.of_nat (List.length ps) - 1) end.
+  e_npar e = match all with [] => 1 | _ => slot (Z.of_nat (List.length all) - 1) end.
 Proof.
-  intros WF e ps s. unfold e. rewrite (emit_refines vars m WF). cbn [spec_emit e_sig e_call e_parnames e_stpnt e_dfdp e_ndim e_npar].
-  fold ps s.
-  assert (Hs : map s ps = slots (List.length ps)) by (apply map_slot_of, ps_NoDup; exact WF).
+  intros WF e ps all s. unfold e. rewrite (emit_refines vars m WF).
+  cbn [spec_emit e_sig e_call e_parnames e_stpnt e_dfdp e_bvp e_ndim e_npar]. fold ps all s.
+  pose proof (all_NoDup vars m WF) as Hnd. fold ps in Hnd.
+  assert (Hall : all = (ps ++ spec_extras vars ps (m_bvp m))%list) by reflexivity.
+  assert (Hs : map s all = slots (List.length all)) by (unfold s; rewrite Hall; apply map_slot_of, Hnd).
+  assert (Hps : map s ps = slots (List.length ps)) by (unfold s; rewrite Hall; apply map_slot_of_prefix, Hnd).
+  assert (Hin : forall p, In p (m_bvp m) -> In p all).
+  { intros p Hp. rewrite Hall. apply in_or_app. destruct (mem p ps) eqn:E; [left; now apply mem_In|right].
+    unfold spec_extras. apply filter_In. split; [now apply dedupe_spec|].
+    rewrite E. cbn. rewrite andb_true_r. apply mem_In. now apply (wf_bvp vars m WF). }
   repeat split; try reflexivity.
-  - intros r p Hin Hp. apply in_flat_map. exists (r, p). split; [exact Hin|]. cbn [fst snd].
-    apply mem_In in Hp. fold ps. rewrite Hp. now left.
-  - intros rc Hrc. apply in_flat_map in Hrc as ([r p] & Hin & Hx). cbn [fst snd] in Hx. fold ps in Hx.
-    destruct (mem p ps) eqn:E; [|destruct Hx]. destruct Hx as [<-|[]]. exists r, p. repeat split; auto. now apply mem_In.
+  - intros r p Hi Hp. apply in_flat_map. exists (r, p). split; [exact Hi|]. cbn [fst snd].
+    apply mem_In in Hp. rewrite Hp. now left.
+  - intros rc Hrc. apply in_flat_map in Hrc as ([r p] & Hi & Hx). cbn [fst snd] in Hx.
+    destruct (mem p all) eqn:E; [|destruct Hx]. destruct Hx as [<-|[]]. exists r, p. repeat split; auto. now apply mem_In.
+  - now apply Hin.
+  - apply in_flat_map. exists p. split; [assumption|]. apply Hin, mem_In in H. rewrite H. now left.
+  - intros c Hc. apply in_flat_map in Hc as (p & Hp & Hx). destruct (mem p all); [|destruct Hx].
+    destruct Hx as [<-|[]]. now exists p.
+  - exact Hps.
   - exact Hs.
   - rewrite Hs. apply slots_sorted.
   - rewrite Hs. apply slots_NoDup.
   - rewrite Hs. apply slots_avoid_reserved.
   - rewrite Hs. apply slots_positive.
-  - rewrite Hs. generalize ps as l. intros [|p0 pl]; [reflexivity|]. cbn [List.length].
+  - rewrite Hs. generalize all as l. intros [|p0 pl]; [reflexivity|]. cbn [List.length].
     unfold max_list. rewrite slots_max. f_equal. lia.
 Qed.
 
 (* the order in which the equations first use the parameters (and duplicates among the arguments) is irrelevant *)
 Theorem first_use_order_irrelevant vars m m' : wf vars m = true -> wf vars m' = true ->
   (forall a, In a (m_args m) <-> In a (m_args m')) -> m_ret m = m_ret m' -> m_states m = m_states m' ->
-  m_val m = m_val m' -> m_dfdp m = m_dfdp m' -> emit m = emit m'.
+  m_val m = m_val m' -> m_dfdp m = m_dfdp m' -> m_bvp m = m_bvp m' -> emit m = emit m'.
 Proof.
-  intros W W' Hargs Hret Hst Hval Hd. rewrite (emit_refines _ _ W), (emit_refines _ _ W').
-  unfold spec_emit. rewrite <- Hret, <- Hst, <- Hval, <- Hd.
+  intros W W' Hargs Hret Hst Hval Hd Hb. rewrite (emit_refines _ _ W), (emit_refines _ _ W').
+  unfold spec_emit, spec_all. rewrite <- Hret, <- Hst, <- Hval, <- Hd, <- Hb.
   assert (E : spec_params vars (m_args m) (m_ret m) = spec_params vars (m_args m') (m_ret m)).
   { unfold spec_params. apply filter_ext. intros a. f_equal.
     destruct (mem a (m_args m)) eqn:E1; destruct (mem a (m_args m')) eqn:E2; try reflexivity.
@@ -287,22 +341,24 @@ Proof.
   now rewrite E.
 Qed.
 
-(* the forwarding call binds every formal parameter of the vector-field routine to its own PAR slot, so the
-   exported vector field is the model's evaluated on the PAR array *)
+(* the forwarding call binds every formal parameter of the vector-field routine to its own PAR slot (also when
+   constraint-only parameters occupy further slots), so the exported vector field is the model's evaluated on the PAR array *)
 Lemma vfield_ext pv pv' y eqs : (forall p, pv p = pv' p) -> vfield pv y eqs = vfield pv' y eqs.
 Proof.
   intros H. unfold vfield. apply map_ext. intros ts. f_equal. apply map_ext. intros [[c qs] ys]. cbn.
   f_equal. f_equal. apply map_ext. exact H.
 Qed.
 Theorem exported_vf_spec vars m par y eqs : wf vars m = true ->
-  exported_vf (emit m) par y eqs = spec_vf (spec_params vars (m_args m) (m_ret m)) par y eqs.
+  exported_vf (emit m) par y eqs = spec_vf (spec_params vars (m_args m) (m_ret m)) (spec_all vars m) par y eqs.
 Proof.
   intros WF. rewrite (emit_refines _ _ WF). unfold exported_vf, spec_vf. apply vfield_ext. intros p.
-  unfold exported_pv, spec_emit. cbn [e_sig e_call skipn]. set (ps := spec_params _ _ _).
-  unfold slot_of at 2. destruct (index_of p ps) as [k|] eqn:E; [|reflexivity].
-  destruct (index_of_nth _ _ _ E) as [Hn Hk].
-  rewrite nth_indep with (d' := slot_of ps ""%string) by (now rewrite map_length).
-  rewrite map_nth, Hn. unfold slot_of. now rewrite E.
+  unfold exported_pv, spec_emit. cbn [e_sig e_call skipn]. set (ps := spec_params _ _ _). set (all := spec_all vars m).
+  destruct (index_of p ps) as [k|] eqn:E.
+  - destruct (index_of_nth _ _ _ E) as [Hn Hk].
+    assert (Hm : mem p ps = true) by (apply mem_In; rewrite <- Hn; now apply nth_In).
+    rewrite Hm. rewrite nth_indep with (d' := slot_of all ""%string) by (now rewrite map_length).
+    now rewrite map_nth, Hn.
+  - apply index_of_none, mem_false in E. now rewrite E.
 Qed.
 
 (* STPNT as compiled: exact when every value survives rounding to binary32 (guard), wrong otherwise *)
@@ -331,7 +387,7 @@ Qed.
 
 Definition stpnt_witness : model :=
   {| m_events := ["x"; "p1"]%string; m_args := ["dy"; "p1"]%string; m_ret := "dy"%string; m_states := ["x"%string];
-     m_val := [("x"%string, mkq 1 2); ("p1"%string, mkq 1 10)]; m_dfdp := []; m_over := [] |}.
+     m_val := [("x"%string, mkq 1 2); ("p1"%string, mkq 1 10)]; m_dfdp := []; m_over := []; m_bvp := [] |}.
 (* as the code is (model switch off) it is false: 1/10 comes back as 13421773/134217728 *)
 Theorem stpnt_refuted_if_unfixed : fixed_stpnt = false ->
   exists vars m, wf vars m = true /\ compiled_stpnt (emit m) <> spec_stpnt (emit m).
